@@ -1,6 +1,7 @@
 import RoutinatorModel.Drv.Main
 import RoutinatorModel.Drv.Json
 import RoutinatorModel.Drv.Stream
+import RoutinatorModel.Drv.Output
 open RoutinatorModel.Drv
 
 def dispatch (comp arg : String) : String :=
@@ -9,6 +10,7 @@ def dispatch (comp arg : String) : String :=
   | "c22p" => runC22p arg
   | "c18d" => runC18d arg
   | "c18s" => runC18s arg
+  | "c21" => runC21 arg
   | "jrec" => runJrec arg
   | "prec" => runPrec arg
   | _ => "bad-component"
